@@ -16,12 +16,15 @@ variable {α : Type} [Add α] [Sub α] [Mul α] [Div α] [Neg α] [NatCast α] [
 def thousand : α := ((1000:Nat) : α)
 
 /-- `Fiber.to_json` then `FiberParams(...)`: length is written in km rounded to 6 digits, the loss coefficient in
-dB/km rounded to 6 digits; `att_in`, `con_in`, `con_out` are written as they are; the attributes design attached
-(`design_span_loss`, `estimated_gain`) and the lumped losses are not part of the document. -/
+dB/km rounded to 6 digits; `att_in`, `con_in`, `con_out` and the lumped losses (position, loss) are written as they are;
+the attributes design attached (`design_span_loss`, `estimated_gain`) are not part of the document. -/
 def exportFiber (p : FiberP α) : FiberP α :=
   { p with length := round6 (p.length / thousand) * thousand,
            lossCoef := round6 (p.lossCoef * thousand) / thousand,
-           ramanGain := none, dsl := none, lumps := [] }
+           ramanGain := none, dsl := none }
+
+/-- the export before the repair: `lumped_losses` was not written (kept as a counter-model only) -/
+def exportFiberOld (p : FiberP α) : FiberP α := { exportFiber p with lumps := [] }
 
 /-- `Edfa.to_json` then `EdfaOperational(...)`: the designed operating point becomes the user setting of the next
 design: `gain_target = round(effective_gain, 6)`, `delta_p` (None in gain mode), `out_voa`, `in_voa`, and the
@@ -110,6 +113,31 @@ def estimateRamanGainParams (lower : String → String) (dflt : SimState) (raman
 def estimateMany (lower : String → String) (dflt : SimState) (ramanOn : RamanParams) : Nat → SimState → SimState
   | 0, s => s
   | n + 1, s => estimateMany lower dflt ramanOn n (estimateRamanGainParams lower dflt ramanOn s).2
+
+/-! ### the design bands of a ROADM through export and reload -/
+
+/-- one design band `(f_min, f_max, spacing)` in Hz -/
+structure DesignBand where
+  fmin : Int
+  fmax : Int
+  spacing : Int
+  deriving DecidableEq, Repr
+
+/-- `Roadm.to_json`: `design_bands` is written whenever the user gave any (`if self.params.design_bands:`) -/
+def exportBands (bs : List DesignBand) : List DesignBand := bs
+
+/-- the export before the repair: written only when there are SEVERAL bands (kept as a counter-model only) -/
+def exportBandsOld (bs : List DesignBand) : List DesignBand := if bs.length > 1 then bs else []
+
+/-- reload + `set_roadm_internal_paths`/`build_network`: a ROADM without `design_bands` in the document designs for the
+band of the SI section -/
+def reloadBands (si : DesignBand) (doc : List DesignBand) : List DesignBand := if doc = [] then [si] else doc
+
+/-- the design load (channel count) of a single-band OMS after reload, as `designChannels` counts it -/
+def reloadedChannels (nbRef : Option Int) (si : DesignBand) (doc : List DesignBand) : Int :=
+  match reloadBands si doc with
+  | b :: _ => designChannels nbRef b.fmin b.fmax b.spacing
+  | [] => designChannels nbRef si.fmin si.fmax si.spacing
 
 /-! ### reload of an exported document -/
 
